@@ -376,7 +376,7 @@ class Gen6:
             if top:
                 rows = ('rows', r.choice((0, 1, 2, 3, 100)), r.choice((0, 0, 1, 2)))
             else:
-                rows = ('rows', 100, 0)  # nested: never cuts (a cut without total order is not a function of the content)
+                rows = ('rows', 100000, 0)  # nested: never cuts (a cut without total order is not a function of the content)
         if named or (top and self.named_top):
             if not sel:
                 sel = tuple(e for e, _ in feats)
